@@ -1589,6 +1589,75 @@ fn scripted_history(out: &mut Out, pool: &Pool, rng: &mut Prng, script: &str) {
     h.close(out, true);
 }
 
+/// A complete frame whose header FIELDS are refused (a signal without INTERFACE) and that carries a descriptor, followed by
+/// a good frame without descriptors. Whether the connection can go on after the refused frame is not specified (the
+/// unchanged library keeps failing on it); but if a message is delivered afterwards it must be the good one with NO
+/// descriptors, and when everything is dropped nothing is left open. Evaluated directly (outside the model).
+fn refused_fields_then_good(out: &mut Out, pool: &Pool) {
+    use rustbus::connection::Timeout;
+    use std::time::Duration;
+    for nfds in [1usize, 2] {
+        let before = list_fds();
+        {
+            let (mut conn, server) = peer::connect_pair(true);
+            // frame A: type signal, PATH and MEMBER but no INTERFACE; body = nfds `h` values
+            let mut a = rustbus::message_builder::MessageBuilder::new().signal("a.b", "M", "/o").build();
+            let raws: Vec<RawFd> = (0..nfds).map(|i| pool.open(i)).collect();
+            for r in &raws {
+                a.body.push_param(&RawW(*r) as &dyn AsRawFd).unwrap();
+            }
+            let mut fa = Vec::new();
+            rustbus::wire::marshal::marshal(&a, NonZeroU32::new(5).unwrap(), &mut fa).unwrap();
+            fa.extend_from_slice(a.get_buf());
+            // turn the INTERFACE field (code 2) into an unknown field (code 0x2a): the required field is now missing
+            let flen = u32::from_le_bytes([fa[12], fa[13], fa[14], fa[15]]) as usize;
+            let mut o = 16;
+            while o < 16 + flen {
+                if fa[o] == 2 && fa[o + 1] == 1 && fa[o + 2] == b's' {
+                    fa[o] = 0x2a;
+                    break;
+                }
+                o += 8;
+            }
+            peer::send_with_fds(&server, &fa, &raws);
+            for r in raws {
+                let _ = nix::unistd::close(r);
+            }
+            drop(a);
+            let r1 = conn.recv.get_next_message(Timeout::Duration(Duration::from_millis(200)));
+            if r1.is_ok() {
+                out.violation("c11.refused_fields", "a signal without INTERFACE was delivered");
+            }
+            // frame B: good, no descriptors
+            let mut b = rustbus::message_builder::MessageBuilder::new().signal("a.b", "Good", "/o").build();
+            b.body.push_param(7u32).unwrap();
+            let mut fb = Vec::new();
+            rustbus::wire::marshal::marshal(&b, NonZeroU32::new(6).unwrap(), &mut fb).unwrap();
+            fb.extend_from_slice(b.get_buf());
+            peer::send_with_fds(&server, &fb, &[]);
+            for _ in 0..2 {
+                if let Ok(m) = conn.recv.get_next_message(Timeout::Duration(Duration::from_millis(200))) {
+                    let n = m.body.get_fds().len();
+                    if m.dynheader.member.as_deref() != Some("Good") || n != 0 {
+                        out.violation(
+                            "c11.refused_fields",
+                            &format!("after a refused frame that carried {} descriptor(s), message {:?} was delivered with {} descriptor(s) attached (it was sent with none)", nfds, m.dynheader.member, n),
+                        );
+                    }
+                    break;
+                }
+            }
+            drop(conn);
+            drop(server);
+        }
+        let after = list_fds();
+        if after != before {
+            out.violation("c11.refused_fields", &format!("open descriptors before {:?}, after everything was dropped {:?}", before, after));
+        }
+        out.hit("refused_fields_then_good");
+    }
+}
+
 pub fn run(cfg: &Cfg) {
     std::panic::set_hook(Box::new(|_| {}));
     let mut out = Out::new(&cfg.outdir);
@@ -1625,6 +1694,7 @@ pub fn run(cfg: &Cfg) {
         out.hit("scripted_many_descriptors");
         scripted_history(&mut out, &pool, &mut rng, &sc);
     }
+    refused_fields_then_good(&mut out, &pool);
     let (n, maxlen) = if cfg.thorough { (4000, 40) } else { (300, 12) };
     for _ in 0..n {
         if rng.chance(1, 8) {
